@@ -128,3 +128,36 @@ theorem region_empty (lo hi : Nat) (allocs : List Nat) (ha : ∀ x ∈ allocs, x
   ⟨fun _ p _ hne => absurd (ptr_empty p) hne, ha⟩
 
 end GoNfsd.Model.BlockMap
+
+namespace GoNfsd.Model.BlockMap
+open GoNfsd.Gen.Consts GoNfsd.Model.Fsck
+
+/-- the image of regular files given as model inodes (pointers, size, ShrinkSize) -/
+def imageOfInos (st : Store) (files : List (Nat × Ino)) : Image :=
+  { imageOf st (files.map fun f => (f.1, f.2.blks)) with
+    inodes := files.map fun f => { inum := f.1, kind := 1, nlink := 1, gen := 0, size := f.2.size, shrink := f.2.shrink, blks := f.2.blks } }
+
+theorem indOf_imageOfInos (st : Store) (files : List (Nat × Ino)) (b : Nat) :
+    indOf (imageOfInos st files) b = indOf (imageOf st (files.map fun f => (f.1, f.2.blks))) b := rfl
+
+/-- SIZES AGREE WITH THE BLOCKS PRESENT ON THE IMAGE: for files that satisfy the bookkeeping
+    invariant `InoOK` (nothing is mapped at or beyond `max(ShrinkSize, ⌈size/4096⌉)`; kept by every
+    WRITE, READ and resize: `Lemmas/InoOps`) the checker's `chkSizes` holds -/
+theorem imageOfInos_sizes (s : S) (files : List (Nat × Ino)) (h : ∀ f ∈ files, InoOK s f.2) :
+    chkSizes (imageOfInos s.st files) = true := by
+  unfold chkSizes
+  rw [List.all_eq_true]
+  intro ino hino
+  obtain ⟨f, hf, rfl⟩ := List.mem_map.mp hino
+  have hk : ((1 : Nat) != NF3DIR) = true := by decide
+  simp only [hk, Bool.true_or, Bool.and_true]
+  have hok := h f hf
+  have hIndOK : IndOK (imageOfInos s.st files) s.st f.2.blks := by
+    have := imageOf_IndOK s.st (files.map fun f => (f.1, f.2.blks)) (f.1, f.2.blks) (List.mem_map.mpr ⟨f, hf, rfl⟩)
+    exact this
+  have hb : Fsck.bound { inum := f.1, kind := 1, nlink := 1, gen := 0, size := f.2.size, shrink := f.2.shrink, blks := f.2.blks } = bound f.2 := by
+    simp only [Fsck.bound, bound, roundUp]
+    exact Nat.max_comm _ _
+  exact owned_below_bound (imageOfInos s.st files) s.st _ hok.wf.len hIndOK (by rw [hb]; exact hok.empty)
+
+end GoNfsd.Model.BlockMap
